@@ -19,11 +19,12 @@ import z3
 
 from .. import driver, extract
 from ..symrt import term, active
-from .predutil import PredictWorld, eq_rec, ge_rec, shapes, std_replay
+from .predutil import PredictWorld, eq_rec, ge_rec, shapes, std_replay, generic_guard
 
 PROP = "C10"
 
 
+@generic_guard("C10")
 def unit(model, sizes, generic=False):
     """generic: sizes = (1,)*n and every team has a symbolic number of members (the listed member is
     the arbitrary one, the aggregates are symbols): the same obligations for teams of every size"""
